@@ -194,8 +194,9 @@ pub fn parse_tok_body(body: &str) -> Option<Tok> {
             let (a, b) = (rank_of(c[0])?, rank_of(c[1])?);
             match c[2] {
                 '+' if a == b => Tok::PocketPlus(a),
-                's' => Tok::Suited(a, b),
-                'o' => Tok::Offsuit(a, b),
+                // a single rank pair may be spelled in either rank order: "KAs" denotes AKs
+                's' if a != b => Tok::Suited(a.min(b), a.max(b)),
+                'o' if a != b => Tok::Offsuit(a.min(b), a.max(b)),
                 _ => return None,
             }
         }
@@ -308,6 +309,7 @@ mod tests {
         assert_eq!(parse_weighted_tok("QQ+:0.5"), Some((Tok::PocketPlus(2), 0.5)));
         assert_eq!(parse_weighted_tok("QQ+:1.5").map(|t| t.1), Some(1.5));
         assert_eq!(parse_weighted_tok("QQ+:2"), None);
-        assert_eq!(parse_weighted_tok("KAs"), None);
+        assert_eq!(parse_weighted_tok("KAs"), Some((Tok::Suited(0, 1), 1.0)));
+        assert_eq!(parse_weighted_tok("KAs+"), None);
     }
 }
